@@ -92,12 +92,14 @@ structure RecInfo where
   ts : Nat
   lat : Nat
   long : Nat
+  /-- `recordIndex == -1` -/
+  absent : Bool := false
   deriving Repr, DecidableEq
 
-def noRec : RecInfo := ⟨uint32Invalid, sint32Invalid, sint32Invalid⟩
+def noRec : RecInfo := ⟨uint32Invalid, sint32Invalid, sint32Invalid, true⟩
 
 def recInfo (m : Message) : RecInfo :=
-  ⟨tstamp m, i32 (fval m fnRecordPositionLat), i32 (fval m fnRecordPositionLong)⟩
+  ⟨tstamp m, i32 (fval m fnRecordPositionLat), i32 (fval m fnRecordPositionLong), false⟩
 
 /-- `mesgs[recordIndex]`, or the zero message for −1. The scans only return −1 or an index inside the list
 (`scanStart_idx`, `scanEndRev_idx` in ActivityLemmas), so the `none` of an out-of-range index is never taken. -/
@@ -167,10 +169,11 @@ def scanEndRev (th : Nat) : Nat → List Message → List Message × Int
       let r := scanEndRev th lastD ms
       (m :: r.1, r.2)
 
-/-- the test of `updateEndPosition`: the lap/session starts after the last revealed record -/
+/-- the test of `updateEndPosition`: the lap/session starts after the last revealed record — or there is no
+revealed record at all (`recordIndex == -1`) -/
 def startsAfter (ph : PH) (r : RecInfo) (m : Message) : Bool :=
   let s := u32 (fval m ph.startTime)
-  s == uint32Invalid || s > r.ts
+  r.absent || s == uint32Invalid || s > r.ts
 
 /-- `updateEndPosition` over the REVERSED list: laps (sessions) from the last one backwards -/
 def updEndRev (ph : PH) (r : RecInfo) (overlap : Bool) : List Message → List Message
